@@ -1142,7 +1142,7 @@ fn source_sets(r: &mut Rng, n: usize) -> Vec<Vec<String>> {
 
 pub fn compile_ops(r: &mut Rng, n: usize, op: &str, out: &mut Vec<String>) {
     for (i, set) in source_sets(r, n).iter().enumerate() {
-        let name = ["collection", "a.b", "x", "my-shapes", "v1.2.3"][i % 5];
+        let name = ["collection", "a.b", "x", "my-shapes", "v1.2.3", "a b", "\u{fc}n\u{ef}", ".hidden", "x..y", "UPPER.Case"][i % 10];
         let mut line = format!("{op}\t{}", crate::wire::hex(name.as_bytes()));
         for s in set {
             line.push('\t');
@@ -1198,10 +1198,13 @@ pub fn c16(r: &mut Rng, sz: &Sizes, out: &mut Vec<String>) {
         }
         hist.push(h);
     }
-    for h in hist {
+    for (i, h) in hist.iter().enumerate() {
         for mode in ["pre", "lazy"] {
             out.push(format!("p_c16h\t{mode}\t{}\t!steps *", h.join("\t")));
         }
+        // every value of OUT_DIR: trailing slash, unusual directory name, relative, unset
+        let variant = ["pre-slash", "lazy-space", "pre-relative", "lazy-unset"][i % 4];
+        out.push(format!("p_c16h\t{variant}\t{}\t!steps *", h.join("\t")));
     }
 }
 
